@@ -24,8 +24,8 @@ import (
 func TestVerifC05(t *testing.T) {
 	vfMain(t, vfCheck{
 		ID: "C05", Level: "exploration",
-		Rule:        "seeded operation sequences (length 5..60) over the names {a,b,c,d,d/x,d/y,d/e,d/e/z,l,m,nope} with all 21 listed operations (OpenFile with every access/creation flag combination), so that collisions, missing parents, non-empty directories, dangling and directory symlinks and files-where-directories-are-expected occur; absolute paths and working-directory-relative paths (WithServerWorkingDirectory). Documented differences are encoded: Mkdir has no mode (0755), Create is 0666 before umask 022, RemoveAll errors on a missing path, RealPath is lexical, StatVFS compares the stable fields; the empty path and ill-formed glob patterns are excluded. A class is (operation, outcome category on the os side, path style).",
-		Assumptions: []string{"runs as root with umask 022", "unordered results (ReadDir, Glob, Walk) are compared as multisets; atime and un-set mtimes are not compared"},
+		Rule:        "seeded operation sequences (length 5..60) over the names {a,b,c,d,d/x,d/y,d/e,d/e/z,l,m,nope} with all 21 listed operations (OpenFile with every access/creation flag combination), so that collisions, missing parents, non-empty directories, dangling and directory symlinks and files-where-directories-are-expected occur; absolute paths and working-directory-relative paths (WithServerWorkingDirectory); privileged and unprivileged callers (the latter with restrictive chmods 000/100/200/300/500/555 on files and directories). Documented differences are encoded: Mkdir has no mode (0755), Create is 0666 before umask 022, RemoveAll errors on a missing path, RealPath is lexical, StatVFS compares the stable fields; the empty path and ill-formed glob patterns are excluded. A class is (operation, outcome category on the os side, path style).",
+		Assumptions: []string{"umask 022; half of the units run every call of both sides as root, the other half as uid/gid 65534 (effective ids of all threads switched with AllThreadsSyscall; snapshots and clean-up as root), so that permission outcomes occur", "unprivileged units never give a directory read permission without search permission: package os can still list the names of such a directory (Glob, Walk) while an SFTP listing carries attributes and fails as a whole — a property of the protocol, not an outcome the statement compares", "go1.25.0's os.RemoveAll leaks an internal errSymlink when a symbolic link cannot be unlinked; it is classified as the permission failure it stands for", "unordered results (ReadDir, Glob, Walk) are compared as multisets; atime and un-set mtimes are not compared"},
 		Units: func(tier vfTier, seed uint64) int {
 			if tier == vfThorough {
 				return 400
@@ -73,6 +73,11 @@ func c05Category(err error) string {
 	switch {
 	case err == nil:
 		return "ok"
+	case c05IsErrSymlink(err):
+		// go1.25.0's os.RemoveAll leaks its internal errSymlink (whose Error method panics) when
+		// an entry that is a symbolic link cannot be unlinked: removeAllFrom only gets there after
+		// unlinkat failed with EPERM or EACCES (EISDIR is impossible for a link), i.e. "permission".
+		return "permission"
 	case errors.Is(err, os.ErrNotExist):
 		return "not-exist"
 	case errors.Is(err, os.ErrPermission):
@@ -81,14 +86,36 @@ func c05Category(err error) string {
 	return "other"
 }
 
+func c05IsErrSymlink(err error) bool {
+	if pe, ok := err.(*os.PathError); ok {
+		err = pe.Err
+	}
+	return fmt.Sprintf("%T", err) == "os.errSymlink"
+}
+
+func c05ErrText(err error) (s string) {
+	defer func() {
+		if recover() != nil {
+			s = fmt.Sprintf("<%T>", err)
+		}
+	}()
+	if err == nil {
+		return "<nil>"
+	}
+	return err.Error()
+}
+
 var c05Names = []string{"a", "b", "c", "d", "d/x", "d/y", "d/e", "d/e/z", "l", "m", "nope", "nope/q", "a/sub"}
 
-func c05Gen(r *vfRand, n int) []c05Step {
+func c05Gen(r *vfRand, n int, unpriv bool) []c05Step {
 	var out []c05Step
 	pick := func() string { return vfPick(r, c05Names) }
 	ops := []string{"Mkdir", "MkdirAll", "Create", "OpenFile", "Remove", "RemoveDirectory", "RemoveAll", "Rename", "PosixRename", "Link", "Symlink", "ReadLink", "Stat", "Lstat", "Chmod", "Chtimes", "Truncate", "ReadDir", "Glob", "Walk", "RealPath", "StatVFS"}
 	for i := 0; i < n; i++ {
 		s := c05Step{op: ops[r.Intn(len(ops))], p1: pick(), p2: pick()}
+		if unpriv && i >= 6 && r.Intn(7) == 0 {
+			s.op = "Chmod"
+		}
 		// bias towards building structure early
 		if i < 6 {
 			s.op = vfPick(r, []string{"Mkdir", "Create", "Symlink", "MkdirAll", "Create", "Mkdir"})
@@ -111,6 +138,11 @@ func c05Gen(r *vfRand, n int) []c05Step {
 			}
 		case "Chmod":
 			s.mode = os.FileMode(vfPick(r, []int{0o600, 0o644, 0o755, 0o700, 0o444, 0o000, 0o4755, 0o1777}))
+			if unpriv && r.Intn(2) == 0 {
+				// modes that matter to an unprivileged caller: no search, no read, no write
+				s.mode = os.FileMode(vfPick(r, []int{0o000, 0o500, 0o300, 0o400, 0o200, 0o100, 0o555, 0o700}))
+				s.p1 = vfPick(r, []string{"d", "d", "d/e", "a", "d/x", "b", "c"})
+			}
 			if s.mode&0o4000 != 0 {
 				s.mode = s.mode&0o777 | os.ModeSetuid
 			}
@@ -258,10 +290,16 @@ func c05Ref(s c05Side, st c05Step) (string, error) {
 		if _, err := os.Lstat(p1); err != nil {
 			return "", err
 		}
+		// the set of paths visited: filepath.Walk reports a directory it cannot read once
+		// (with the error), the client's Walker twice (entry, then the error) — API shape, not outcome
+		seen := map[string]bool{}
 		filepath.Walk(p1, func(p string, info os.FileInfo, err error) error {
-			if err == nil {
+			if info != nil {
 				rel, _ := filepath.Rel(s.root, p)
-				l = append(l, rel)
+				if !seen[rel] {
+					seen[rel] = true
+					l = append(l, rel)
+				}
 			}
 			return nil
 		})
@@ -368,15 +406,20 @@ func c05Sut(c *Client, s c05Side, st c05Step) (string, error) {
 		}
 		w := c.Walk(p1)
 		var l []string
+		seen := map[string]bool{}
 		for w.Step() {
-			if w.Err() != nil {
+			if w.Stat() == nil {
 				continue
 			}
 			rel := w.Path()
 			if !s.relative {
 				rel, _ = filepath.Rel(s.root, rel)
 			}
-			l = append(l, path.Clean(rel))
+			rel = path.Clean(rel)
+			if !seen[rel] {
+				seen[rel] = true
+				l = append(l, rel)
+			}
 		}
 		sort.Strings(l)
 		return strings.Join(l, ","), nil
@@ -414,12 +457,60 @@ func c05Run(u *vfUnit) {
 	r := u.Rng
 	relative := u.Index%2 == 1
 	base := u.TempDir()
+	// Units 2,3 mod 4 run the calls of BOTH sides as uid/gid 65534, so that permission outcomes
+	// (unsearchable, unreadable, unwritable directories and files) occur; snapshots and
+	// clean-up are taken as root. Needs a cgo-free binary and a scratch directory that
+	// "nobody" can reach; otherwise the unit runs privileged and says so in the counters.
+	unpriv := u.Index%4 >= 2
+	if unpriv {
+		for p, k := base, 0; k < 3 && p != "/" && p != filepath.Clean(os.TempDir()); p, k = filepath.Dir(p), k+1 {
+			os.Chmod(p, 0o755)
+		}
+		probe := filepath.Join(base, "probe")
+		os.Mkdir(probe, 0o755)
+		os.Chown(probe, 65534, 65534)
+		if err := vfSetEffective(65534, 65534); err != nil {
+			unpriv = false
+		} else {
+			_, e1 := os.Stat(probe)
+			e2 := os.WriteFile(filepath.Join(probe, "w"), []byte("x"), 0o644)
+			if err := vfSetEffective(0, 0); err != nil {
+				panic("cannot regain root: " + err.Error())
+			}
+			if e1 != nil || e2 != nil {
+				unpriv = false
+			}
+		}
+		os.RemoveAll(probe)
+		if !unpriv {
+			u.Count("unprivileged_unavailable", 1)
+		}
+	}
+	drop := func() {
+		if unpriv {
+			if err := vfSetEffective(65534, 65534); err != nil {
+				panic("cannot drop privileges: " + err.Error())
+			}
+		}
+	}
+	raise := func() {
+		if unpriv {
+			if err := vfSetEffective(0, 0); err != nil {
+				panic("cannot regain root: " + err.Error())
+			}
+		}
+	}
+	defer raise()
 	nSeq := 10
 	for si := 0; si < nSeq; si++ {
 		A := c05Side{root: filepath.Join(base, fmt.Sprintf("A%d", si)), relative: relative}
 		B := c05Side{root: filepath.Join(base, fmt.Sprintf("B%d", si)), relative: relative}
 		os.MkdirAll(A.root, 0o755)
 		os.MkdirAll(B.root, 0o755)
+		if unpriv {
+			os.Chown(A.root, 65534, 65534)
+			os.Chown(B.root, 65534, 65534)
+		}
 		cfg := vfSrvCfg{Kind: vfOS, Alloc: si%2 == 0}
 		if relative {
 			cfg.WorkDir = A.root
@@ -429,25 +520,45 @@ func c05Run(u *vfUnit) {
 			u.Inconclusive("connect: %v", err)
 			return
 		}
-		steps := c05Gen(r, 5+r.Intn(56))
+		steps := c05Gen(r, 5+r.Intn(56), unpriv)
 		u.Count("sequences", 1)
 		var history []string
 		style := "abs"
 		if relative {
 			style = "rel"
 		}
+		if unpriv {
+			style += "-unpriv"
+		}
 		for i, st := range steps {
+			if unpriv && st.op == "Chmod" && st.mode&0o400 != 0 && st.mode&0o100 == 0 {
+				// a directory that can be read but not searched yields names without attributes:
+				// package os can still list names (Glob, Walk), an SFTP listing carries attributes
+				// and fails as a whole. That is the protocol, not an outcome the statement compares;
+				// such directory modes are not generated (files keep them).
+				if fi, err := os.Stat(B.abs(st.p1)); err == nil && fi.IsDir() {
+					st.mode |= 0o100
+				}
+			}
 			history = append(history, st.String())
+			drop()
 			wantV, wantErr := c05Ref(B, st)
 			gotV, gotErr := c05Sut(sess.C, A, st)
+			raise()
 			u.Count("steps", 1)
+			if unpriv {
+				u.Count("unprivileged_steps", 1)
+				if c05Category(wantErr) == "permission" {
+					u.Count("unprivileged_permission_outcomes", 1)
+				}
+			}
 			u.SetAdd("operations", st.op)
 			wc, gc := c05Category(wantErr), c05Category(gotErr)
 			u.SetAdd("outcome_categories", wc)
 			u.Eval(fmt.Sprintf("%s/%s/%s", st.op, wc, style))
 			w := map[string]any{"path_style": style, "history": history[max(0, len(history)-15):], "unit": u.Index, "sequence": si, "step": i}
 			if wc != gc {
-				u.Violation(fmt.Sprintf("category:%s:os=%s:sftp=%s", st.op, wc, gc), fmt.Sprintf("step %d %s (%s paths): package os reports %q (%v), the client reports %q (%v)", i, st, style, wc, wantErr, gc, gotErr), w)
+				u.Violation(fmt.Sprintf("category:%s:os=%s:sftp=%s", st.op, wc, gc), fmt.Sprintf("step %d %s (%s paths): package os reports %q (%s), the client reports %q (%v)", i, st, style, wc, c05ErrText(wantErr), gc, gotErr), w)
 			} else if wantErr == nil && wantV != gotV {
 				u.Violation("value:"+st.op, fmt.Sprintf("step %d %s (%s paths): package os returns %q, the client returns %q", i, st, style, vfTrim(wantV, 300), vfTrim(gotV, 300)), w)
 			}
